@@ -259,6 +259,8 @@ class V:
             return self.add("unknown-object-type", path, "type %r (version %s)" % (t, ver))
         if ver == "2.0" and tbl.get("cat") == "sco":
             # a STIX 2.0 cyber observable has no id and only exists inside observed-data
+            if isinstance(o, dict) and "id" in o:
+                return self.add("sco-of-2.1-in-2.0-bundle", path, "a cyber observable with an id (%r) is STIX 2.1 content; this bundle holds 2.0 content" % (t,))
             return self.add("observable-without-id-as-member", path, "a STIX 2.0 cyber observable (%r) cannot be a bundle member" % (t,))
         sub.check_table(tbl, o, path, None, top=True)
         self.issues.extend(sub.issues)
